@@ -11,13 +11,35 @@ TZ = re.compile(r'^(/usr/share/zoneinfo|/etc/localtime$|/etc/timezone$|/usr/lib/
 TZ_FILTERS = re.compile(r'\b(localtime|strflocaltime|strptime|strftime|mktime|gmtime|todate|fromdate|date|dateadd|datesub|todateiso8601|fromdateiso8601)\b|%Z|%Q')
 
 
-def strace(cmd, log, cwd=None, env=None, timeout=600, stdin=None):
+def strace(cmd, log, cwd=None, env=None, timeout=600, stdin=None, progress_file=None, stall_s=None):
+    """run cmd under strace; with progress_file: kill everything when that file has not grown for stall_s seconds
+    (returns rc None, as for a timeout)"""
+    import time, signal
     full = ['strace', '-f', '-qq', '-s', '400', '-o', log, '-e', 'trace=' + CALLS] + cmd
-    try:
-        p = subprocess.run(full, cwd=cwd, env=env, stdout=subprocess.PIPE, stderr=subprocess.PIPE, timeout=timeout, input=stdin)
-        return p.returncode, p.stdout, p.stderr
-    except subprocess.TimeoutExpired as e:
-        return None, e.stdout or b'', e.stderr or b''
+    if progress_file is None:
+        try:
+            p = subprocess.run(full, cwd=cwd, env=env, stdout=subprocess.PIPE, stderr=subprocess.PIPE, timeout=timeout, input=stdin)
+            return p.returncode, p.stdout, p.stderr
+        except subprocess.TimeoutExpired as e:
+            return None, e.stdout or b'', e.stderr or b''
+    p = subprocess.Popen(full, cwd=cwd, env=env, stdout=subprocess.DEVNULL, stderr=subprocess.DEVNULL, start_new_session=True)
+    t0 = t_last = time.time()
+    size0 = os.path.getsize(progress_file) if os.path.exists(progress_file) else 0
+    last = -1
+    while p.poll() is None:
+        time.sleep(0.5)
+        n = os.path.getsize(progress_file) if os.path.exists(progress_file) else 0
+        if n != last:
+            last, t_last = n, time.time()
+        # the stall clock starts with the first result (before that the driver is compiling all cases), or after 10 minutes
+        elif (time.time() - t_last > stall_s and (n > size0 or time.time() - t0 > 600)) or time.time() - t0 > timeout:
+            try:
+                os.killpg(p.pid, signal.SIGKILL)
+            except ProcessLookupError:
+                pass
+            p.wait()
+            return None, b'', b''
+    return p.returncode, b'', b''
 
 
 def unesc(s):
